@@ -4,8 +4,6 @@ package main
 
 import (
 	"fmt"
-	"os"
-	"time"
 	"regexp"
 	"strconv"
 	"strings"
@@ -121,6 +119,19 @@ func c17BashOdd(in *l3Info, p string, mode int) bool {
 	}
 	if in.unclosedBracketInGroup || in.starBeforeAtPlus {
 		return true
+	}
+	// bash: after a `*`, a later @(…) or +(…) that has to match the empty string at the end of the
+	// subject fails (`[[ ab == a*+(|y) ]]` is false, also through other possibly-empty lists:
+	// `a**(x)+(|y)`); conservatively: any plain `*` before an @( or +(.
+	rs := []rune(p)
+	for i := 0; i < len(rs); i++ {
+		if rs[i] == '*' && !(i+1 < len(rs) && rs[i+1] == '(') {
+			rest := string(rs[i+1:])
+			if strings.Contains(rest, "+(") || strings.Contains(rest, "@(") {
+				return true
+			}
+			break
+		}
 	}
 	if strings.Contains(p, "-[:") || strings.Contains(p, "-[.") || strings.Contains(p, "-[=") ||
 		strings.Contains(p, "-\\[") {
@@ -613,10 +624,7 @@ func c17(c *Ctx) {
 			rec(prefix+a, l+1)
 		}
 	}
-	t0 := time.Now()
 	rec("", 0)
-	fmt.Fprintln(os.Stderr, "exhaustive", time.Since(t0))
-	t0 = time.Now()
 
 	// random longer patterns
 	for i := 0; i < c.N; i++ {
@@ -664,8 +672,5 @@ func c17(c *Ctx) {
 			consider(p, mode, strs)
 		}
 	}
-	fmt.Fprintln(os.Stderr, "random", time.Since(t0))
-	t0 = time.Now()
 	c17RunBash(c, probes)
-	fmt.Fprintln(os.Stderr, "bash", time.Since(t0), len(probes))
 }
